@@ -21,6 +21,10 @@ class KDRandomThreshold(KDRandomApplyBase):
             mode=mode,
         )
 
+    def set_rng(self, rng):
+        self.threshold.set_rng(rng)
+        return super().set_rng(rng)
+
     def _scale_strength(self, factor):
         self.threshold.scale_strength(factor)
 
